@@ -25,7 +25,7 @@ Try(sa, r, w, md, exp) == UnprotectCaps("C02", sa, ~r, w, md, exp)
 
 Chunks(n) == 0..((n - 1) \div 16)
 Parts(s, i) == { << "flip", c >> : c \in Chunks(N(s, i) - IL(s)) } \cup { << "prefix", c >> : c \in Chunks(N(s, i)) }
-               \cup { << "retype", c >> : c \in 0..7 } \cup { << "flipicv", 0 >>, << "ext", 0 >>, << "site", 0 >>, << "splice", 0 >>, << "crosskey", 0 >> }
+               \cup { << "retype", c >> : c \in 0..7 } \cup { << "flipicv", 0 >>, << "ext", 0 >>, << "site", 0 >>, << "splice", 0 >>, << "crosskey", 0 >>, << "insert", 0 >> }
 
 Steps(s, r, i, p) ==
   LET n == N(s, i) il == IL(s) w == W(n) IN
@@ -68,6 +68,16 @@ Steps(s, r, i, p) ==
             Try("R", r, Cat(<< Slice(w, 0, 48), FromT(w2, 48) >>), "nil", RejectExp),                    \* header + IV of 1, ciphertext + checksum of 2
             Try("R", r, Cat(<< DropEnd(w, il), LastN(w2, il) >>), "pre", RejectExp),                     \* checksum of 2 on 1
             Try("R", r, Cat(<< Slice(w, 0, 32), FromT(w2, 32) >>), "nil", RejectExp) >>
+    [] p[1] = "insert" ->     \* a multi-octet edit after which the datagram still presents an Encrypted payload: the header names an
+                              \* unsupported type and a generic payload header of that type (next = 46) is put in front of SK;
+                              \* with and without the header length adjusted.  Nothing was re-authenticated: rejected, no key applied to the ciphertext
+         LET ts == << 49, 127, 200, 0, 255 >>
+             ins(t, fix, body) == Cat(<< IF fix THEN OverwriteT(OverwriteT(Slice(w, 0, 28), 16, << t >>), 24, U32(n + 4 + Len(body)))
+                                                ELSE OverwriteT(Slice(w, 0, 28), 16, << t >>),
+                                         Lit(<< 46, 0 >> \o U16(4 + Len(body)) \o body), FromT(w, 28) >>) IN
+         [j \in 1..Len(ts) |-> Try("R", r, ins(ts[j], TRUE, << >>), Mode(j), RejectExp)]
+         \o [j \in 1..Len(ts) |-> Try("R", r, ins(ts[j], FALSE, << >>), Mode(j + 1), RejectExp)]
+         \o [j \in 1..Len(ts) |-> Try("R", r, ins(ts[j], TRUE, << 1, 2, 3, 4, 5 >>), Mode(j), RejectExp)]
     [] p[1] = "crosskey" ->
          << Try("X", r, w, "nil", RejectExp), Try("X", r, w, "pre", RejectExp),
             Try("X", ~r, w, "nil", RejectExp),
